@@ -58,7 +58,7 @@ def _fp_sites(obl):
         lab = os.path.join(d, "lab.gb")
         # any one restriction makes goto-instrument label every site
         rc, out = _sh(["goto-instrument", "--restrict-function-pointer",
-                       "ldb_iter_clear.function_pointer_call.1/vp_arr_clear", linked, lab])
+                       "ldb_iter_clear.function_pointer_call.1/ldb_free", linked, lab])
         if rc != 0 or not os.path.exists(lab):
             raise RuntimeError("C07 fp-site scan: labelling failed:\n%s" % out[-2000:])
         rc, out = _sh(["goto-instrument", "--show-goto-functions", lab])
@@ -174,7 +174,8 @@ for (sizes, k, tier) in (((2, 2), 3, "quick"), ((1, 2), 3, "quick"), ((0, 2), 3,
     d = {"VP_MODE": 0, "VP_K": k, "VP_N0": sizes[0], "VP_N1": sizes[1]}
     if len(sizes) > 2:
         d["VP_N2"] = sizes[2]
-    add("c.merger-ops-%s-K%d" % ("x".join(str(x) for x in sizes), k), "C07/merger.c", real=MERGER_REAL,
+    d["VP_ALLOC_WRAPITERS"] = len(sizes)
+    add("c.merger-ops-%s-K%d" % ("x".join(str(x) for x in sizes), k), "C07/merger.c", real=MERGER_REAL, kit=KIT_SLAB,
         include_real=["table/merger.c"], defs=d, unwind=total + 3, tier=tier, functions=MERGER_FUNCS,
         desc="merger.c over %d sorted children: after each of K symbolic ops (first/last/seek(sym)/next/prev, all direction changes) valid/key/value == sorted-map cursor over the union (keys distinct across children); status()==first non-OK child status" % len(sizes),
         bounds="children with %s entries, 1-byte symbolic keys, symbolic child statuses, K=%d symbolic ops" % ("/".join(str(x) for x in sizes), k))
@@ -183,9 +184,81 @@ for (sizes, tier) in (((2, 2), "quick"), ((3, 2), "quick"), ((2, 2, 2), "thoroug
     d = {"VP_MODE": 1, "VP_N0": sizes[0], "VP_N1": sizes[1]}
     if len(sizes) > 2:
         d["VP_N2"] = sizes[2]
-    add("c.merger-scan-dups-%s" % "x".join(str(x) for x in sizes), "C07/merger.c", real=MERGER_REAL,
+    d["VP_ALLOC_WRAPITERS"] = len(sizes)
+    add("c.merger-scan-dups-%s" % "x".join(str(x) for x in sizes), "C07/merger.c", real=MERGER_REAL, kit=KIT_SLAB,
         include_real=["table/merger.c"], defs=d, unwind=total + 3, tier=tier, functions=MERGER_FUNCS,
         desc="merger.c with keys possibly repeated across children (LevelDB semantics): full forward and full backward scans yield every entry of every child exactly once, in (reverse) comparator order, ties in (reverse) child order",
         bounds="children with %s entries, 1-byte symbolic keys" % "/".join(str(x) for x in sizes))
+
+# ------------------------------------------------------------------ d. two_level_iterator.c
+TWO_REAL = ["table/iterator.c", "util/comparator.c", "util/buffer.c", "util/slice.c", "util/strutil.c"]
+TWO_FUNCS = ["ldb_twoiter_first", "ldb_twoiter_last", "ldb_twoiter_seek", "ldb_twoiter_next", "ldb_twoiter_prev",
+             "ldb_twoiter_skip_forward", "ldb_twoiter_skip_backward", "ldb_twoiter_init_data_block",
+             "ldb_twoiter_set_data_iter", "ldb_twoiter_status", "ldb_twoiter_key", "ldb_twoiter_value", "ldb_twoiter_create"]
+
+
+def two_defs(sizes, mode, k=None):
+    d = {"VP_MODE": mode}
+    for i, x in enumerate(sizes):
+        d["VP_S%d" % i] = x
+    if k is not None:
+        d["VP_K"] = k
+    return d
+
+
+def two_loops(sizes):
+    nb = len(sizes)
+    # skip loops open at most every block once; the handle buffer is 1 byte
+    return {"ldb_twoiter_skip_forward.0": nb + 2, "ldb_twoiter_skip_backward.0": nb + 2,
+            "memcpy.0": 2, "memcmp.0": 2}
+
+
+for (sizes, k, tier) in (((1, 0, 1), 3, "quick"), ((0, 1, 0), 3, "quick"), ((1, 0), 3, "quick"), ((0, 0, 1), 2, "quick"),
+                         ((1, 1), 3, "quick"), ((0, 0), 2, "quick"),
+                         ((2, 0, 1), 3, "thorough"), ((1, 0, 0, 1), 3, "thorough"), ((1, 0, 1), 4, "thorough"),
+                         ((0, 2, 0), 3, "thorough"), ((2, 2), 3, "thorough")):
+    add("d.twolevel-ops-%s-K%d" % ("x".join(str(x) for x in sizes), k), "C07/twolevel.c", real=TWO_REAL, kit=KIT_SLAB,
+        include_real=["table/two_level_iterator.c"], defs=two_defs(sizes, 0, k), unwind=sum(sizes) + len(sizes) + 3,
+        unwindset=two_loops(sizes), tier=tier, functions=TWO_FUNCS, fp_rules={"block_function": "vp_blockfn"},
+        desc="two_level_iterator.c over an index child and per-block children (some EMPTY, status symbolic = some FAILING): after each of K symbolic ops valid/key/value == sorted-map cursor over the union (empty blocks skipped both ways, nothing lost/repeated); exactly the held data iterator alive; status() == index status, else held block status, else first non-OK status of released blocks; a block error is never forgotten",
+        bounds="blocks with %s entries, 1-byte symbolic keys/separators, symbolic statuses, K=%d symbolic ops" % ("/".join(str(x) for x in sizes), k))
+for (sizes, tier) in (((1, 0, 1), "quick"), ((0, 1, 0, 1), "quick"), ((2, 0, 0, 1), "thorough"), ((2, 2, 2), "thorough")):
+    add("d.twolevel-scan-%s" % "x".join(str(x) for x in sizes), "C07/twolevel.c", real=TWO_REAL, kit=KIT_SLAB,
+        include_real=["table/two_level_iterator.c"], defs=two_defs(sizes, 1), unwind=sum(sizes) + len(sizes) + 3,
+        unwindset=two_loops(sizes), tier=tier, functions=TWO_FUNCS, fp_rules={"block_function": "vp_blockfn"},
+        desc="two_level_iterator.c full forward and full backward scans over blocks (some empty, some failing) yield the union of all blocks, each entry once, in order / reverse order, with the status rule holding at every step",
+        bounds="blocks with %s entries, 1-byte symbolic keys/separators, symbolic statuses" % "/".join(str(x) for x in sizes))
+
+# ------------------------------------------------------------------ a. block.c on builder-produced blocks
+BLOCK_REAL = ["table/block_builder.c", "table/iterator.c", "util/comparator.c", "util/buffer.c", "util/slice.c",
+              "util/strutil.c", "util/array.c"]
+BLOCK_KIT = ["vp_nondet.c", "vp_mem.c", "vp_alloc_c07.c"]
+BLOCK_FUNCS = ["ldb_blockiter_first", "ldb_blockiter_last", "ldb_blockiter_seek", "ldb_blockiter_next",
+               "ldb_blockiter_prev", "parse_next_key", "decode_entry", "seek_to_restart_point", "get_restart_point",
+               "ldb_block_init", "ldb_blockiter_create", "ldb_blockgen_add", "ldb_blockgen_finish"]
+
+
+def block_defs(lens, ri, mode, k=None):
+    d = {"VP_MODE": mode, "VP_N": len(lens), "VP_RI": ri, "VP_VL": 1, "VP_SLAB": 64}
+    for i, x in enumerate(lens):
+        d["VP_L%d" % i] = x
+    if k is not None:
+        d["VP_K"] = k
+    return d
+
+
+for (lens, ri, k, tier) in (((2, 2), 1, 2, "quick"), ((2, 2), 2, 2, "quick"), ((1, 2, 3), 2, 2, "quick"),
+                            ((2, 2, 2), 1, 2, "quick"), ((2, 2, 2), 3, 2, "quick"), ((2,), 1, 2, "quick"),
+                            ((2, 2, 2), 2, 2, "thorough"), ((3, 3, 3), 1, 2, "thorough"), ((3, 3, 3), 2, 2, "thorough"),
+                            ((3, 3, 3), 3, 2, "thorough"), ((3, 2, 1), 2, 2, "thorough"), ((2, 2, 2), 2, 3, "thorough")):
+    add("a.block-ops-L%s-R%d-K%d" % ("".join(str(x) for x in lens), ri, k), "C07/blockiter.c", real=BLOCK_REAL, kit=BLOCK_KIT,
+        include_real=["table/block.c"], defs=block_defs(lens, ri, 0, k), unwind=8, tier=tier, functions=BLOCK_FUNCS,
+        desc="block.c iterator on a block produced by the real block_builder.c: after each of K symbolic ops (first/last/seek(sym)/next/prev) valid/key/value == sorted-map cursor over the added entries, status OK",
+        bounds="%d entries, key lengths %s (symbolic bytes, strictly increasing), 1-byte symbolic values, restart interval %d, symbolic target of 0..3 bytes, K=%d" % (len(lens), "/".join(str(x) for x in lens), ri, k))
+for (lens, ri, tier) in (((2, 2, 2), 2, "quick"), ((1, 2, 3), 1, "quick"), ((3, 3, 3), 3, "thorough"), ((3, 3, 3), 2, "thorough")):
+    add("a.block-scan-L%s-R%d" % ("".join(str(x) for x in lens), ri), "C07/blockiter.c", real=BLOCK_REAL, kit=BLOCK_KIT,
+        include_real=["table/block.c"], defs=block_defs(lens, ri, 1), unwind=8, tier=tier, functions=BLOCK_FUNCS,
+        desc="block.c iterator on a builder-produced block: full forward and full backward scans yield exactly the added entries, each once, in order / reverse order",
+        bounds="%d entries, key lengths %s, restart interval %d" % (len(lens), "/".join(str(x) for x in lens), ri))
 
 META = {}
